@@ -5,8 +5,8 @@ from harness import terms_family as tf
 from harness.lib import S, OS, B as Bc, L, P
 
 EXTRA = ("agg", "analytic", "extract", "period", "nested", "subq", "insub", "cmpsub", "exists", "vwterm", "attz", "union",
-         "values", "bitand_t", "ch_hasany", "ch_tofixed", "ch_length")
-PY_ONLY = ("union", "values", "bitand_t", "ch_hasany", "ch_tofixed", "ch_length")      # no constructor in the model (oracle only)          # no constructor in the model (oracle only)
+         "values", "bitand_t", "ch_hasany", "ch_tofixed", "ch_length", "interval")
+PY_ONLY = ("union", "values", "bitand_t", "ch_hasany", "ch_tofixed", "ch_length", "interval")      # no constructor in the model (oracle only)          # no constructor in the model (oracle only)
 
 
 # ----------------------------------------------------------------------------------------------
@@ -116,6 +116,8 @@ def build(t):
     if k == "ch_hasany":    # ["ch_hasany", f1, f2]
         from pypika.clickhouse.array import HasAny
         return HasAny(build(t[1]), build(t[2]))
+    if k == "interval":     # ["interval", {"days": 1}]   a Node that is not a Term and holds no table
+        return T.Interval(**t[1])
     if k == "ch_length":    # ["ch_length", f]
         from pypika.clickhouse.array import Length
         return Length(build(t[1]))
